@@ -1424,7 +1424,16 @@ fn render_type_arguments(arguments: &[Type]) -> String {
 }
 
 fn render_tuple_type(tuple_type: &TupleType) -> String {
-    let name = tuple_type.name.clone().unwrap_or_default();
+    // A lower-case name is that of a type alias, which the tuple inherits: `'alias[..., f: 't]`, where
+    // a bare `...` spreads the alias itself (the parser stores it as `...'alias`).
+    let alias = tuple_type
+        .name
+        .as_deref()
+        .filter(|name| name.starts_with(|c: char| c.is_ascii_lowercase()));
+    let name = match alias {
+        Some(alias) => format!("'{}", alias),
+        None => tuple_type.name.clone().unwrap_or_default(),
+    };
     if tuple_type.fields.is_empty() {
         return if tuple_type.is_partial {
             format!("{}()", name)
@@ -1437,7 +1446,15 @@ fn render_tuple_type(tuple_type: &TupleType) -> String {
     let fields = tuple_type
         .fields
         .iter()
-        .map(render_field_type)
+        .map(|field| match field {
+            FieldType::Spread {
+                identifier: Some(identifier),
+                type_arguments,
+            } if Some(identifier.as_str()) == alias && type_arguments.is_empty() => {
+                "...".to_string()
+            }
+            field => render_field_type(field),
+        })
         .collect::<Vec<_>>()
         .join(", ");
     let (open, close) = if tuple_type.is_partial {
